@@ -148,6 +148,29 @@ pub fn euler_checks<R: Residual>(model: &Arc<R>, s: &RState, lam: f64) -> Vec<Ch
 
 pub const ORACLE_TOL: f64 = 1e-8;
 
+const D1_BLOCK: &str = r#"(* first derivatives: the derivative program seeded with the unit direction d (seeds are further constants: zero except one) is
+   homogeneous of degree 1 for d = T (entropy) and of degree 0 for d = V, N_i (pressure, chemical potentials) *)
+Definition P_D1 := tan_outs P_prog P_n [0%nat].
+Definition P_seedflags (d : nat) : list bool := map (fun j => negb (Nat.eqb j d)) (seq 0 P_n).
+Definition P_d1deg (d : nat) : Z := if Nat.eqb d 0 then 1%Z else 0%Z.
+Eval vm_compute in ("D1OK", "P", map (fun d => outputs_deg P_D1 ncomp (zero_flags P_consts ++ P_seedflags d) 1 (P_d1deg d)) (seq 0 P_nvars)).
+Eval vm_compute in ("D1NONE", "P", map (fun d => first_none P_D1 (d0_thermo ncomp (zero_flags P_consts ++ P_seedflags d))) (seq 0 P_nvars)).
+"#;
+
+const D1_LEMMA: &str = r#"Lemma P_first_derivatives_check :
+  forallb (fun d => outputs_deg P_D1 ncomp (zero_flags P_consts ++ P_seedflags d) 1 (P_d1deg d)) (seq 0 P_nvars) = true.
+Proof. vm_compute. reflexivity. Qed.
+Definition P_first_derivative_homogeneous (d : nat) (Hd : In d (seq 0 P_nvars)) :=
+  C02_program_homogeneous P_D1 ncomp (zero_flags P_consts ++ P_seedflags d) 1 (P_d1deg d)
+    (proj1 (forallb_forall _ _) P_first_derivatives_check d Hd).
+Definition P_gibbs_duhem (d : nat) (Hd : In d (seq 0 P_nvars)) T V N consts k y dv :=
+  C02_euler_relation_any_degree P_D1 ncomp (zero_flags P_consts ++ P_seedflags d) 1 (P_d1deg d) T V N consts k y dv
+    (proj1 (forallb_forall _ _) P_first_derivatives_check d Hd).
+Check P_first_derivative_homogeneous.
+Check P_gibbs_duhem.
+"#;
+
+
 /// one configuration, for any model implementing `Residual`
 fn one<R: Residual>(c: &ConfigG<R>, out_dir: &str, seed: u64, k_tv: usize, k_oracle: usize) -> Value {
         let mut rng = Rng(seed ^ trace::fxhash(&c.name));
@@ -191,29 +214,15 @@ Lemma P_scoped : wscoped P_prog P_n = true.
 Proof. vm_compute. reflexivity. Qed.
 Definition P_euler := C02_euler_relation P_prog ncomp (zero_flags P_consts) P_nouts.
 Check P_euler.
-(* first derivatives: the derivative program seeded with the unit direction d (seeds are further constants: zero except one) is
-   homogeneous of degree 1 for d = T (entropy) and of degree 0 for d = V, N_i (pressure, chemical potentials) *)
-Definition P_D1 := tan_outs P_prog P_n [0%nat].
-Definition P_seedflags (d : nat) : list bool := map (fun j => negb (Nat.eqb j d)) (seq 0 P_n).
-Definition P_d1deg (d : nat) : Z := if Nat.eqb d 0 then 1%Z else 0%Z.
-Eval vm_compute in ("D1OK", "P", map (fun d => outputs_deg P_D1 ncomp (zero_flags P_consts ++ P_seedflags d) 1 (P_d1deg d)) (seq 0 P_nvars)).
-Eval vm_compute in ("D1NONE", "P", map (fun d => first_none P_D1 (d0_thermo ncomp (zero_flags P_consts ++ P_seedflags d))) (seq 0 P_nvars)).
+D1_BLOCK
 (* numeric reading of Euler's relation at the validation states: directional derivative along (0,V,N,0) vs the value itself *)
 Definition P_edir (st : list (Z * Z)) : list (Z * Z) := (0, 0)%Z :: (firstn (P_nvars - 1) (tl st) ++ repeat (0, 0)%Z (List.length P_consts))%list.
 Eval vm_compute in ("EULER", "P", let d := tan_outs P_prog P_n [0%nat] in map (fun st => (ib_out (nth 0 (evalIB 64%Z P_prog st) IB.nai), ib_out (nth 0 (evalIB 64%Z d (st ++ P_edir st)%list) IB.nai))) P_inputs).
-Lemma P_first_derivatives_check :
-  forallb (fun d => outputs_deg P_D1 ncomp (zero_flags P_consts ++ P_seedflags d) 1 (P_d1deg d)) (seq 0 P_nvars) = true.
-Proof. vm_compute. reflexivity. Qed.
-Definition P_first_derivative_homogeneous (d : nat) (Hd : In d (seq 0 P_nvars)) :=
-  C02_program_homogeneous P_D1 ncomp (zero_flags P_consts ++ P_seedflags d) 1 (P_d1deg d)
-    (proj1 (forallb_forall _ _) P_first_derivatives_check d Hd).
-Definition P_gibbs_duhem (d : nat) (Hd : In d (seq 0 P_nvars)) T V N consts k y dv :=
-  C02_euler_relation_any_degree P_D1 ncomp (zero_flags P_consts ++ P_seedflags d) 1 (P_d1deg d) T V N consts k y dv
-    (proj1 (forallb_forall _ _) P_first_derivatives_check d Hd).
-Check P_first_derivative_homogeneous.
-Check P_gibbs_duhem.
+D1_LEMMA
 "#;
-            let mut body = body.to_string();
+            // the obligations on the derivative program (~3x larger, analysed once per direction) only below a size limit
+            let with_d1 = tr.prog.instrs.len() <= 4500;
+            let mut body = body.replace("D1_BLOCK\n", if with_d1 { D1_BLOCK } else { "" }).replace("D1_LEMMA\n", if with_d1 { D1_LEMMA } else { "" });
             if tr.prog.instrs.len() > 4000 {
                 // the numeric Euler check evaluates a derivative program (~3x larger): skipped for very large programs
                 body = body.lines().filter(|l| !l.contains("\"EULER\"")).collect::<Vec<_>>().join("\n") + "\n";
@@ -234,7 +243,7 @@ Check P_gibbs_duhem.
                 });
             }
             progs_json.push(json!({
-                "name": p, "ninstr": tr.prog.instrs.len(), "nconsts": tr.prog.consts.len(),
+                "name": p, "ninstr": tr.prog.instrs.len(), "with_first_derivative_obligations": with_d1, "nconsts": tr.prog.consts.len(),
                 "outs": tr.prog.outs, "n_re": tr.prog.re_events.len(), "n_cmp": tr.prog.cmp_events.len(),
                 "same_shape": tr.same_shape, "leaks": tr.leaks, "unsupported": tr.prog.unsupported,
                 "scaled_same_shape": cs.same_shape, "scaled_leaks": cs.leaks, "trace_state": base.vars(),
